@@ -684,4 +684,43 @@ Section TableP.
     f_equal. apply ksorted_ext; try assumption.
     intros k. rewrite Hg1, Hg2, Heq. reflexivity.
   Qed.
+
+  (* ---------- HashMap iteration order is unobservable (C02) ---------- *)
+
+  Lemma kv_get_perm {A} (m1 m2 : list (N * A)) k :
+    NoDup (map fst m1) -> Permutation.Permutation m1 m2 -> kv_get m1 k = kv_get m2 k.
+  Proof.
+    intros Hnd Hp.
+    assert (Hnd2 : NoDup (map fst m2)).
+    { apply (Permutation.Permutation_NoDup (Permutation.Permutation_map fst Hp) Hnd). }
+    destruct (kv_get m1 k) as [a|] eqn:E1.
+    - apply kv_get_in in E1. symmetry. apply kv_get_nodup_in; [assumption|].
+      apply (Permutation.Permutation_in _ Hp E1).
+    - destruct (kv_get m2 k) as [a|] eqn:E2; [|reflexivity].
+      apply kv_get_in in E2. apply (Permutation.Permutation_in _ (Permutation.Permutation_sym Hp)) in E2.
+      rewrite (kv_get_nodup_in _ _ _ Hnd E2) in E1. discriminate.
+  Qed.
+
+  Theorem cache_order_unobservable t1 t2 T lo hi :
+    TRepr t1 T -> t_db t2 = t_db t1 -> t_cdb t2 = t_cdb t1 ->
+    Permutation.Permutation (t_cache t1) (t_cache t2) ->
+    TRepr t2 T /\
+    (forall k, t_latest t2 k = t_latest t1 k) /\
+    t_get_range t2 lo hi = t_get_range t1 lo hi.
+  Proof.
+    intros TR Hd Hc Hp.
+    assert (Hview : forall k, view t2 k = view t1 k).
+    { intros k. unfold view. rewrite Hd, Hc. rewrite (kv_get_perm _ _ k (tr_nodup _ _ TR) Hp). reflexivity. }
+    assert (TR2 : TRepr t2 T).
+    { constructor.
+      - intros k. rewrite Hview. apply TR.
+      - apply (Permutation.Permutation_NoDup (Permutation.Permutation_map fst Hp) (tr_nodup _ _ TR)).
+      - rewrite Hd. apply TR.
+      - rewrite Hc. apply TR. }
+    assert (Hl : forall k, t_latest t2 k = t_latest t1 k).
+    { intros k. unfold t_latest. rewrite Hd. rewrite (kv_get_perm _ _ k (tr_nodup _ _ TR) Hp). reflexivity. }
+    split; [exact TR2|]. split; [exact Hl|].
+    apply (get_range_determined_by_latest _ _ _ _ lo hi TR2 TR).
+    intros k. unfold latest_or_none. rewrite Hl. reflexivity.
+  Qed.
 End TableP.
